@@ -44,9 +44,9 @@ PROPERTIES = {
                        "integer points of small polyhedra; sampled points for wide bounds; unsafe models as reachability canaries. ADDED: contracts.c01glue glue.c02.converse -- for solver-safe sign assignments every in-bounds integer point of the asserted polyhedron produced by the real glue over the A-rs1 model has a leaf part that makes the model true (bounded in shape, unbounded in values).",
     },
     "C03": {
-        "harness_modules": ["contracts.assume", "contracts.c03"],
+        "harness_modules": ["contracts.assume", "contracts.c03", "contracts.shapes"],
         "harness_filter": only("AtLeast.assume", "variable.assume", "variable.evaluate", "lemma.ival_wf", "lemma.total_const",
-                               "AtLeast.evaluate"),
+                               "AtLeast.evaluate", "shape.evaluate"),
         "rt": ["rt.logic:c03_evaluate_glue", "rt.logic:history_sequences"],
         "level": "other",
         "assumptions": S_ALL,
@@ -68,7 +68,8 @@ PROPERTIES = {
                        "rule-dictionary (from_cicJE) routes.",
     },
     "C05": {
-        "harness_modules": ["contracts.c05"],
+        "harness_modules": ["contracts.c05", "contracts.shapes"],
+        "harness_filter": only("AtLeast.negate", "shape.negate"),
         "rt": ["rt.logic:c05_negation_e2e"],
         "level": "proof",
         "assumptions": S_ALL,
@@ -77,9 +78,9 @@ PROPERTIES = {
                        "induction hypothesis on compound children. (An end-to-end runtime check through evaluate() runs as well.)",
     },
     "C06": {
-        "harness_modules": ["contracts.assume", "contracts.flags"],
+        "harness_modules": ["contracts.assume", "contracts.flags", "contracts.shapes"],
         "harness_filter": only("AtLeast.assume", "variable.assume", "variable.evaluate", "lemma.ival_wf", "lemma.sound",
-                               "AtLeast.flags"),
+                               "AtLeast.flags", "shape.partial"),
         "rt": ["rt.logic:c06_partial_soundness", "rt.logic:history_sequences"],
         "level": "proof",
         "assumptions": S_ALL,
@@ -87,8 +88,8 @@ PROPERTIES = {
                        "completion) + is_tautology / is_contradiction / equation_bounds soundness and exactness.",
     },
     "C07": {
-        "harness_modules": ["contracts.assume"],
-        "harness_filter": only("AtLeast.assume", "variable.assume", "lemma.ival_wf", "lemma.refine"),
+        "harness_modules": ["contracts.assume", "contracts.shapes"],
+        "harness_filter": only("AtLeast.assume", "variable.assume", "lemma.ival_wf", "lemma.refine", "shape.assume"),
         "rt": ["rt.logic:c07_assume_compose", "rt.logic:history_sequences"],
         "level": "proof",
         "assumptions": S_ALL,
@@ -96,7 +97,8 @@ PROPERTIES = {
                        "the remaining leaves, ival(assume(d), e) == ival(self, d|e); plus the spec lemmas it uses. ADDED stand-in: rt.c07_assume_compose checks the property as stated (assume(a).evaluate(r) == evaluate(a|r)) for int / range / Bounds / constant-tuple values and sub-proposition ids.",
     },
     "C08": {
-        "harness_modules": ["contracts.reduce"],
+        "harness_modules": ["contracts.reduce", "contracts.shapes"],
+        "harness_filter": only("AtLeast.reduce", "shape.reduce"),
         "rt": ["rt.logic:c08_reduce_e2e", "rt.logic:history_sequences"],
         "level": "proof",
         "assumptions": S_ALL + ["lemma.refine (proved in contracts.assume) is used as a fact about compound children"],
@@ -177,7 +179,8 @@ PROPERTIES = {
                            "turns a solver exception into InfeasibleError; StingyConfigurator.select forwards and keeps exactly the "
                            "leaf ids under only_leafs. bounded stand-in: recording and exact solvers on random models/configurators, "
                            "batched vs single requests. ADDED: ge_polyhedron_config._vectors_from_prios under contract (user row = weight at the named column, 0 elsewhere, symbolic column bounds)."},
-    "C16": {"harness_modules": ["contracts.c16"],
+    "C16": {"harness_modules": ["contracts.c16", "contracts.shapes"],
+            "harness_filter": lambda h: h.name.startswith("json:") or h.name == "shape.json",
             "rt": ["rt.logic:c16_json_roundtrip", "rt.config:c16_configurator_json"], "level": "other",
             "assumptions": S_ALL + ["json.dumps/json.loads is the identity on the emitted records (checked by the stand-in only)"],
             "explanation": "deductive: for variable/AtLeast(explicit signs)/AtMost/All/Any/Xor/XNor/Imply the real to_json followed by the "
